@@ -86,6 +86,10 @@ EXPLANATION += (
     ' Round 9: aggregated vote totals kept in a chosen integer type are sized from a sum of the summands (R-CAP/sum-capacity).'
 )
 
+EXPLANATION += (
+    ' Kernel inputs are (data - row mean) / sqrt(sum((data - row mean)^2)), compared as polynomials (R-ARITH/pearson).'
+)
+
 RULE_TEXT = (
     "one obligation per draw, per block, per indexed comprehension, per "
     "provenance relation, per kernel function x configuration (type and "
@@ -114,6 +118,7 @@ def check(ctx):
     check_counter_capacity(ctx)
     check_correlation_backfill(ctx)
     check_zero_norm_guard(ctx)
+    check_pearson_form(ctx)
     # neighbours and correlations of one bootstrap iteration are paired
     # by position: the two lists are filled in lock-step
     # the leaves that compete below a parent come from as_leaves: its
@@ -653,7 +658,7 @@ def check_zero_norm_guard(ctx):
         for e in divs:
             den = e.right.id
             sl = backward_slice(fi, e.right, node.id)
-            if not sl.has_call('sqrt'):
+            if not (sl.has_call('sqrt') or sl.has_call('norm')):
                 continue
             n += 1
             # replacement stores  den[mask] = c  that dominate the division
@@ -693,3 +698,118 @@ def check_zero_norm_guard(ctx):
     if n == 0:
         raise AnalysisError('_subtract_mean_and_normalize_cpu: no division '
                             'by the norm found')
+
+
+def check_pearson_form(ctx, rule='R-ARITH/pearson'):
+    """what the kernel multiplies are rows centred on their own mean and
+    divided by the root of the sum of squares of the *centred* values:
+    every return of _subtract_mean_and_normalize_cpu is, transpositions
+    and the zero-norm replacement looked through,
+    (data - mean) / sqrt(sum((data - mean)^2)); the product of two such
+    matrices is then the Pearson correlation.  Compared as polynomials, so
+    any equivalent spelling passes."""
+    from ..core import poly as P
+    db = ctx.db
+    fi = db.fn('utils.distance_utils:_subtract_mean_and_normalize_cpu')
+    ctx.touch(fi)
+    cfg = cfg_of(fi)
+    rd = rd_of(fi)
+    ex = Expander(fi)
+    DATA = P.atom(('param', 'data'))
+    MU = P.atom(('ROWMEAN',))
+
+    def strip_t(t):
+        while isinstance(t, tuple) and t and t[0] == 'call' \
+                and T.call_name(t) in ('transpose', 't'):
+            rc = T.call_receiver(t)
+            if rc is None or (isinstance(rc, tuple) and rc
+                              and rc[0] == 'name'):
+                t = t[2][0]
+            else:
+                t = rc
+        return t
+
+    def atoms(t):
+        if isinstance(t, tuple) and t and t[0] == 'call':
+            nm = T.call_name(t)
+            if nm in ('transpose', 't'):
+                try:
+                    return P.poly(strip_t(t), atoms)
+                except P.NotPolynomial:
+                    return None
+            if nm == 'mean' and t[2] and t[2][0] == ('param', 'data'):
+                return MU
+            if nm == 'mean' and T.call_receiver(t) == ('param', 'data'):
+                return MU
+        return None
+    centred = P._add(DATA, MU, -1)
+    n = 0
+    for r in cfg.nodes:
+        if r.kind != 'return' or r.id not in rd.live \
+                or r.ast.value is None:
+            continue
+        n += 1
+        t = strip_t(ex.expand(r.ast.value, r.id))
+        ok_num = ok_den = False
+        if t[0] == 'binop' and t[1] == 'Div':
+            try:
+                ok_num = P.poly(t[2], atoms) == centred
+            except P.NotPolynomial:
+                ok_num = False
+            d = P.strip_guard(strip_t(t[3]))
+            inner = None
+            if isinstance(d, tuple) and d[0] == 'call' and T.call_name(
+                    d) == 'sqrt' and d[2]:
+                s = d[2][0]
+                if s[0] == 'call' and T.call_name(s) == 'sum' and s[2]:
+                    inner = s[2][0]
+            elif isinstance(d, tuple) and d[0] == 'call' and T.call_name(
+                    d) == 'norm' and d[2]:
+                # np.linalg.norm(x, axis=..) = sqrt(sum(x^2))
+                inner = ('binop', 'Pow', d[2][0], ('const', '2'))
+            if inner is not None:
+                try:
+                    ok_den = P.poly(inner, atoms) == P._mul(centred,
+                                                            centred)
+                except P.NotPolynomial:
+                    ok_den = False
+        ctx.ob(rule, f'{fi.qual}:return#{n - 1}:centred', fi.loc(r.ast),
+               ok_num, 'rows are centred on their own mean' if ok_num else
+               f'the kernel input {fmt_term(t)[:90]} is not '
+               '(data - row mean) / norm')
+        ctx.ob(rule, f'{fi.qual}:return#{n - 1}:norm', fi.loc(r.ast),
+               ok_den, 'rows are divided by the root of the sum of their '
+               'squared centred values' if ok_den else
+               f'the kernel input {fmt_term(t)[:90]} is not divided by '
+               'sqrt(sum((data - row mean)^2)): the product of two such '
+               'rows is not the correlation coefficient')
+    if n < 2:
+        raise AnalysisError('_subtract_mean_and_normalize_cpu: returns '
+                            'not found')
+    # the product: np.dot of the two prepared matrices
+    f2 = db.fn('utils.distance_utils:_correlation_dot_cpu')
+    ctx.touch(f2)
+    c2 = cfg_of(f2)
+    r2 = rd_of(f2)
+    e2 = Expander(f2)
+    for r in c2.nodes:
+        if r.kind != 'return' or r.id not in r2.live:
+            continue
+        t = e2.expand(r.ast.value, r.id)
+        ok = False
+        if t[0] == 'call' and T.call_name(t) in ('dot', 'matmul') \
+                and len(t[2]) == 2:
+            a, b = t[2]
+            ok = all(T.call_name(x) == '_subtract_mean_and_normalize_cpu'
+                     for x in (a, b)) and T.params_in(a) == {'arr0'} \
+                and T.params_in(b) == {'arr1'}
+        elif t[0] == 'binop' and t[1] == 'MatMult':
+            a, b = t[2], t[3]
+            ok = all(T.call_name(x) == '_subtract_mean_and_normalize_cpu'
+                     for x in (a, b)) and T.params_in(a) == {'arr0'} \
+                and T.params_in(b) == {'arr1'}
+        ctx.ob(rule, f'{f2.qual}:product', f2.loc(r.ast), ok,
+               'the correlation matrix is the product of the two prepared '
+               'matrices' if ok else
+               f'_correlation_dot_cpu returns {fmt_term(t)[:90]}, not the '
+               'product of the prepared arr0 and the prepared arr1')
